@@ -26,9 +26,15 @@ def confirm(outdir, which, sid):
     ran = []
     ok_tests = True
     for c in crates:
-        cmd = "cargo test -p %s --offline 2>&1 | tail -40" % c
+        cmd = "cargo test -p %s --offline --no-fail-fast 2>&1 | grep -E '^test |test result|^error' " % c
         rc, o = sh(cmd, cwd=WT, env=env)
-        passed = "test result: ok" in o and "FAILED" not in o and "error:" not in o
+        base = json.load(open("/root/.vp/BASELINE.json"))
+        known_bad = {t.split("::", 1)[1] for t in base.get("always_fail", [])}
+        failed = [l.split()[1] for l in o.splitlines() if l.startswith("test ") and l.rstrip().endswith("FAILED")]
+        new_fail = [t for t in failed if t not in known_bad]
+        passed = "test result:" in o and not new_fail and "error" not in o.split("test result")[0][:0]
+        if not passed:
+            o = "new failures: %s\n" % new_fail + o[-600:]
         ran.append(dict(cmd="cargo test -p %s --offline" % c, passed=passed, tail=o[-600:]))
         ok_tests &= passed
     rc, o = sh("git apply %s" % demo, cwd=WT); assert rc == 0, "demo does not apply: " + o
